@@ -401,7 +401,9 @@ def _process_case(spec):
 # ---------------------------------------------------------------- C20 targets
 
 
-def log_message(i, size):
+def log_message(i, size, dup=0):
+    if dup and i % dup == dup - 1:
+        i -= 1  # the same text as the previous record: two records, not one
     head = f'{i:06d}:'
     return head + 'm' * max(0, size - len(head))
 
@@ -412,7 +414,7 @@ def emit_records(spec):
     for i in range(spec['n']):
         name = spec['names'][i % len(spec['names'])]
         lvl = spec['levels'][i % len(spec['levels'])]
-        logging.getLogger(name).log(lvl, log_message(i, spec['size']))
+        logging.getLogger(name).log(lvl, log_message(i, spec['size'], spec.get('dup', 0)))
 
 
 def log_target(spec):
